@@ -1,6 +1,7 @@
 // harness/fmt_driver.cpp — implementation side of the format cluster (C08): nitro::format (operator%, args(...),
 // str(), conversion to std::string, operator<<) and nitro::except::raise / exception::what().
 //   fmt <format-hex> <op>*      op  = p:<arg> | a:<arg>,<arg>,... | a:.
+//   os <width> <fill-hex> <l|r|i> <format-hex> <op>*         operator<< into a stream with pending width/fill/adjustment
 //   seq <format-hex> <op>* / <format-hex> <op>* / ...        several formatters, one after the other
 //   exc <arg>+
 //   arg = s<hex> | s- | i<dec> | d<dec> | b0 b1 | f<dec> | h<dec> | x<dec> | w<dec> | t0 t1 | m<manipulator>   (see ocaml/fmt_driver.ml)
@@ -244,7 +245,21 @@ static std::string run_case(const std::vector<std::string>& w)
         const F& cf = f;
         std::string a = observe([&] { return cf.str(); });
         std::string b = observe([&] { std::string s = cf; return s; });
-        std::string c = observe([&] { std::ostringstream os; os << cf; return os.str(); });
+        // operator<< into a stream that already has content, followed by a sentinel: the WHOLE content is compared;
+        // after a raise nothing of the formatter may be in the stream
+        std::string c;
+        {
+            std::ostringstream os;
+            os << "pre:";
+            bool raised = false;
+            try { os << cf; }
+            catch (const nitro::except::exception&) { raised = true; }
+            os << "!";
+            const std::string all = os.str();
+            if (raised) c = all == "pre:!" ? "RAISE" : "RAISE-AFTER-OUTPUT(" + vh::hex(all) + ")";
+            else if (all.size() >= 5 && all.compare(0, 4, "pre:") == 0 && all.back() == '!') c = "S " + vh::hex(all.substr(4, all.size() - 5));
+            else c = "STREAM(" + vh::hex(all) + ")";
+        }
         std::string d = a;
         if (no_nul(fmt))
         {
@@ -256,6 +271,26 @@ static std::string run_case(const std::vector<std::string>& w)
         }
         if (a != b || a != c || a != d) return "ROUTES-DIFFER str=" + a + " conv=" + b + " os=" + c + " cstr=" + d;
         return a;
+    }
+    if (w.size() >= 5 && w[0] == "os")
+    {
+        long width = 0;
+        if (!parse_long(w[1], width) || width < 0 || w[2].size() != 2 || (w[3] != "l" && w[3] != "r" && w[3] != "i")) return "BADCASE";
+        std::vector<Op> ops;
+        if (!parse_ops(w, 5, w.size(), ops)) return "BADCASE";
+        F f = nitro::format(vh::unhex(w[4]));
+        if (!apply_ops(f, ops, false)) return "BADCASE";
+        const F& cf = f;
+        std::ostringstream os;
+        os << "pre:";
+        // the caller's pending formatting state
+        os << std::setfill(vh::unhex(w[2])[0]) << (w[3] == "l" ? std::left : w[3] == "r" ? std::right : std::internal)
+           << std::setw(static_cast<int>(width));
+        bool raised = false;
+        try { os << cf; }
+        catch (const nitro::except::exception&) { raised = true; }
+        os << std::string("!");
+        return "O " + vh::hex(os.str()) + (raised ? " R" : " K");
     }
     if (w.size() >= 2 && w[0] == "seq")
     {
